@@ -920,6 +920,21 @@ func (fx *FnCtx) ret(x *ssa.Return) {
 	for i, r := range x.Results {
 		results = append(results, Val{T: fx.val(r), GoT: sig.Results().At(i).Type()})
 	}
+	for _, h := range fx.fc.ExitHints {
+		env := fx.env(fx.cur)
+		env.results = results
+		for n, pv := range fx.paramTerm {
+			env.bound[n] = pv
+		}
+		v, err := env.elab(h)
+		if err != nil {
+			fx.errf("binding failure: %s hint exit: %v", fx.key, err)
+			continue
+		}
+		if hf := map[string]string{"Int": "hintI", "Str": "hintS", "Bool": "hintB"}[v.T.Sort]; hf != "" {
+			fx.assume(Term{"(" + hf + " " + v.T.S + ")", "Bool"})
+		}
+	}
 	for i, c := range fx.fc.Ensures {
 		if c.Assumed != "" {
 			continue // assumed postcondition: used by callers, listed as an assumption, not checked here
@@ -1168,6 +1183,28 @@ func (fx *FnCtx) call(v *ssa.Call, c *ssa.CallCommon) {
 	n := fx.callCount[fc.Key]
 	fx.callCount[fc.Key] = n + 1
 	pre := st.clone()
+	// call-site assumptions declared by the caller's contract (listed among the assumptions of the run)
+	for _, cs := range fx.fc.Calls {
+		if cs.Assumed == "" || cs.Callee != fc.Key || !(cs.Nth < 0 || cs.Nth == fx.siteOrdinal(c, fc.Key)) {
+			continue
+		}
+		env := fx.env(st)
+		if cp := c.Pos(); cp.IsValid() {
+			env.pos = cp
+			env.laxLocals = true
+		}
+		for i, pn := range pnames {
+			env.bound["arg_"+pn] = args[i]
+			env.bound[fmt.Sprintf("arg%d", i)] = args[i]
+		}
+		t, err := env.elabBool(cs.Req.E)
+		if err != nil {
+			fx.errf("binding failure: call assumes clause for %s in %s: %v", fc.Key, fx.key, err)
+			continue
+		}
+		fx.assume(t)
+		fx.notes[fmt.Sprintf("ASSUMED at the call of %s in %s: %s (%s)", fc.Key, fx.key, cs.Req.Text, cs.Assumed)] = true
+	}
 	for i, r := range fc.Requires {
 		env := mkEnv(st, pre)
 		t, err := env.elabBool(r.E)
@@ -1180,7 +1217,7 @@ func (fx *FnCtx) call(v *ssa.Call, c *ssa.CallCommon) {
 	// extra call-site requirements declared by the caller's contract
 	csOrd := 0
 	for _, cs := range fx.fc.Calls {
-		if cs.Callee == fc.Key && (cs.Nth < 0 || cs.Nth == fx.siteOrdinal(c, fc.Key)) {
+		if cs.Assumed == "" && cs.Callee == fc.Key && (cs.Nth < 0 || cs.Nth == fx.siteOrdinal(c, fc.Key)) {
 			lbl := cs.Req.Name
 			if lbl == "" {
 				lbl = fmt.Sprintf("c%d", csOrd)
